@@ -34,12 +34,20 @@ def attach_details(rep, meta, scratch, gd, hb):
     details, key = {}, None
     for line in open(path).read().splitlines():
         if line.startswith("    ") and key is not None:
-            details[key] = details.get(key, "") + line.strip() + "\n"
+            details[key] = details.get(key, "") + line[4:].rstrip() + "\n"
         else:
             key = line.strip()
     for v in rep.violations:
         obs = (v.get("detail") or {}).get("observation")
         if obs and obs in details:
+            if obs.startswith("(multi "):
+                # several packages: the files of the module and the command line are in the details
+                v["detail"]["module_files_and_output"] = details[obs][:8000]
+                v["detail"]["how_to_replay"] = ("the observation is (multi <n> (<i> <j> ...) <use> <inv> <class>): a module p with n packages "
+                                                "pa, pb, ...; package i imports package j for every pair i j; write the files listed in "
+                                                "module_files_and_output and run the goderive command given in its first line in the module directory")
+                continue
             v["detail"]["goderive_or_compiler_output"] = details[obs][:3000]
             v["detail"]["how_to_replay"] = ("the observation is (run <plugin> (<argument types>) <class>): write a package whose only "
-                                            "call is derive<Plugin>(*new(T1), ...) with those argument types and run goderive on it")
+                                            "call is derive<Plugin>(*new(T1), ...) with those argument types and run goderive on it; "
+                                            "a type (n 99xx 0 (if 0)) is a type parameter of the generic function that contains the call")
